@@ -13,7 +13,7 @@ RULE = ('JSON values generated recursively (null, booleans, integers incl. huge,
         'negative numbers and zeros, numbers beyond the range of a double in either direction, strings, arrays, objects with arbitrary string keys incl. empty and duplicate) and '
         'written by the harness\'s own serialiser with drawn spellings: number forms 12 / -12 / 1.50 / 1e3 / 1E+3 / -0 / '
         '0.000001, each string character raw or as one of its JSON escapes (\\" \\\\ \\/ \\b \\f \\n \\r \\t \\uXXXX, '
-        'surrogate pairs for astral characters), arbitrary JSON white space; content restricted to what is valid in both '
+        'surrogate pairs for astral characters; a quarter of the characters from a pool of text that is in no Unicode normalisation form), arbitrary JSON white space; content restricted to what is valid in both '
         'JSON and an ES5 string literal. Contexts: var x = V; x = V; var x = V inside function f(){}; two bindings in one '
         'statement; the same name bound twice by var then assignment and by assignment then var (the last binding is what the dictionary holds); x fold_ops in {False, True}. Oracle: ast_to_dict(parse(ctx(V)), fold_ops) holds under the name '
         'exactly json.loads(V) by typed equality (bool/int/float distinguished, sign of zero, strings by code point) '
@@ -43,6 +43,11 @@ SAFE_CHARS = st.one_of(
     st.sampled_from(['"', '\\', '/', '\b', '\f', '\n', '\r', '\t', "'", u'\u00e9', u'\u65e5', u'\U0001d4b3', u'\U0001f600',
                      u'\uffff', u'\x7f', chr(0xa0), u'\x01', u'\x1f', chr(0x2028), chr(0x2029)]),
     st.characters(blacklist_categories=('Cs',)),
+    # text that is not in a Unicode normalisation form: singletons, compatibility characters, combining marks (also
+    # in non-canonical order) and conjoining jamo next to their bases - a JSON parser normalises nothing
+    st.sampled_from([chr(0x212b), chr(0x2126), chr(0xf900), chr(0x0340), chr(0x0344), chr(0xfb01), chr(0xb5), chr(0x1e9b),
+                     'e', 'a', 'o', chr(0x301), chr(0x327), chr(0x323), chr(0x308), chr(0x1100), chr(0x1161), chr(0x11a8),
+                     chr(0x3b9), chr(0x345), chr(0xff21), chr(0x130)]),
 )
 MUST_ESCAPE = set('"\\') | set(chr(c) for c in range(0x20)) | {chr(0x2028), chr(0x2029)}
 SHORT = {'"': '\\"', '\\': '\\\\', '/': '\\/', '\b': '\\b', '\f': '\\f', '\n': '\\n', '\r': '\\r', '\t': '\\t'}
